@@ -159,7 +159,7 @@ def _noise_raw(proto, noise, when):
     if not noise or noise == "none":
         return
     shape, at = noise.split("@")
-    if shape in ("twin", "fallback"):
+    if shape in ("twin", "fallback", "otherconn"):
         return          # handled by the vector itself
     if shape == "split":
         # a multi-line event is half received when the command is issued; the rest arrives before the reply
@@ -247,6 +247,14 @@ def getinfo_vector(kvs, seg="whole", rng=None, noise="none", api="dict"):
         if noise == "twin@before":
             p.dataReceived(CANCELLED_REPLY)       # the busy command's answer
             _deliver(p, data, seg, rng)           # the twin's answer, then ours
+        if noise == "otherconn@during":
+            # another control connection of the same process receives a whole data-block reply while ours is half in
+            cut = data.find(b"\r\n", len(data) // 3) + 2
+            _deliver(p, data[:cut], seg, rng)
+            other = cc.Run(wrap=False).proto
+            other.get_info("other/key").addBoth(lambda _: None)
+            other.dataReceived(b"250+other/key=\r\nforeign line 1\r\nforeign line 2\r\n.\r\n250 OK\r\n")
+            data = data[cut:]
         _deliver(p, data, seg, rng)
     except Exception:
         fired.append(failure.Failure())
